@@ -64,6 +64,7 @@ class PreFunction:
         "lexer",
         "tokenizer",
         "prefix",
+        "is_expanding",
     )
 
     def __init__(
@@ -93,6 +94,8 @@ class PreFunction:
         self.lexer = lexer
         self.tokenizer = tokenizer
         self.prefix = prefix
+        self.is_expanding = False
+        """Whether a call of this (lazy) function is being expanded right now"""
 
     def parse(self, func_content: str | None = None) -> "Function":
         return Function(
@@ -181,7 +184,18 @@ class PreFunction:
                 calc_pos, func_content, self.self_token, self.tokenizer
             )
 
-        return "\n".join(self.parse(func_content).commands)
+        if self.is_expanding:
+            raise JMCSyntaxException(
+                f"Lazy function '{self.self_token.string}' calls itself, directly or through another lazy function (lazy functions are expanded at compile time, so the expansion would never end)",
+                error_token,
+                self.tokenizer,
+                suggestion="Remove the recursive call or remove the decorator",
+            )
+        self.is_expanding = True
+        try:
+            return "\n".join(self.parse(func_content).commands)
+        finally:
+            self.is_expanding = False
 
 
 class Function:
